@@ -308,6 +308,7 @@ func checkC08(c *Ctx, r *Report) {
 	checkDMRegionSwitches(c, r)
 	checkDMBlockInterleave(c, r)
 	checkDMEccOrder(c, r)
+	checkDMFrame(c, r)
 	r.Note("not decided: the decoder's de-interleave (DataBlock_getDataBlocks, loop-carried offsets with the 144x144 special case); the finder/clock drawing loop; the traversal loop of Place/readCodewords beyond its shapes and trigger conditions")
 }
 
@@ -1501,5 +1502,212 @@ func checkDMEccOrder(c *Ctx, r *Report) {
 			}
 		}
 		reportFold(r, c, "S-DMECCORDER", key, eloop.Pos(), bad)
+	}
+}
+
+// S-DMFRAME: finder and clock tracks around every data region, data modules from the placement
+func checkDMFrame(c *Ctx, r *Report) {
+	r.Rule("S-DMFRAME", "encodeLowLevel, folded for each of the 30 symbol sizes on the reference geometry, draws every data region's frame as ISO 16022 prescribes - solid dark left column and bottom row, alternating top row (dark on even columns) and right column (dark on even data rows, light top-right corner) - and fills data module (x, y) of the mapping matrix into its region at the right offset; every module of the symbol is written", 30)
+	fd, p := c.funcDeclOf("datamatrix", "encodeLowLevel")
+	if fd == nil {
+		r.AnchorLost("S-DMFRAME", "datamatrix.encodeLowLevel", "function not found")
+		return
+	}
+	for _, sz := range refDM {
+		key := fmt.Sprintf("datamatrix.encodeLowLevel %dx%d", sz.rows, sz.cols)
+		r.Analysed(key)
+		W, H := int64(sz.cols), int64(sz.rows)
+		rw, rh := int64(sz.regCols), int64(sz.regRows)
+		dataW, dataH := rw*int64(sz.hRegions), rh*int64(sz.vRegions)
+		got := map[[2]int64]bool{}
+		bit := func(x, y int64) bool { return (x*7+y*13+x*y)%3 == 0 }
+		h := &rpf{unroll: 1000000, maxSteps: 8000000}
+		h.callHook = func(rr *rpf, call *ast.CallExpr, callee types.Object) (*Val, bool) {
+			fn, ok := callee.(*types.Func)
+			if !ok {
+				return nil, false
+			}
+			switch fn.Name() {
+			case "GetSymbolDataWidth":
+				return vint(dataW), true
+			case "GetSymbolDataHeight":
+				return vint(dataH), true
+			case "GetSymbolWidth":
+				return vint(W), true
+			case "GetSymbolHeight":
+				return vint(H), true
+			case "GetMatrixWidth":
+				return vint(rw), true
+			case "GetMatrixHeight":
+				return vint(rh), true
+			case "NewByteMatrix":
+				a, b := rr.expr(call.Args[0]), rr.expr(call.Args[1])
+				if a.K != VInt || b.K != VInt || a.I != W || b.I != H {
+					rpfFail("the module matrix is created %vx%v, the symbol is %dx%d", a, b, W, H)
+				}
+				return &Val{K: VNil}, true
+			case "SetBool":
+				x, y, v := rr.expr(call.Args[0]), rr.expr(call.Args[1]), rr.expr(call.Args[2])
+				if x.K != VInt || y.K != VInt || v.K != VBool || x.I < 0 || y.I < 0 || x.I >= W || y.I >= H {
+					rpfFail("SetBool(%v, %v) outside the %dx%d symbol", x, y, W, H)
+				}
+				got[[2]int64{x.I, y.I}] = v.B
+				return &Val{K: VNil}, true
+			case "GetBit":
+				x, y := rr.expr(call.Args[0]), rr.expr(call.Args[1])
+				if x.K != VInt || y.K != VInt || x.I < 0 || y.I < 0 || x.I >= dataW || y.I >= dataH {
+					rpfFail("GetBit(%v, %v) outside the %dx%d mapping matrix", x, y, dataW, dataH)
+				}
+				return vbool(bit(x.I, y.I)), true
+			case "convertByteMatrixToBitMatrix":
+				return &Val{K: VNil}, true
+			}
+			return nil, false
+		}
+		_, err := c.rpfCall(fd, p, []*Val{{K: VNil}, {K: VNil}, vint(0), vint(0)}, h)
+		pos := c.pos(fd.Pos())
+		if err != nil {
+			r.Undecided("S-DMFRAME", key, pos, err.Error())
+			continue
+		}
+		bad := ""
+		for Y := int64(0); Y < H && bad == ""; Y++ {
+			for X := int64(0); X < W; X++ {
+				bxI, bx := X/(rw+2), X%(rw+2)
+				byI, by := Y/(rh+2), Y%(rh+2)
+				var want bool
+				what := ""
+				switch {
+				case bx == 0:
+					want, what = true, "left finder column"
+				case by == rh+1:
+					want, what = true, "bottom finder row"
+				case by == 0:
+					want, what = bx%2 == 0, "top clock track"
+				case bx == rw+1:
+					want, what = (by-1)%2 == 0, "right clock track"
+				default:
+					want, what = bit(bxI*rw+bx-1, byI*rh+by-1), fmt.Sprintf("data module (%d,%d) of the mapping matrix", bxI*rw+bx-1, byI*rh+by-1)
+				}
+				g, written := got[[2]int64{X, Y}]
+				if !written {
+					bad = fmt.Sprintf("module (%d,%d) (%s) is never written", X, Y, what)
+					break
+				}
+				if g != want {
+					bad = fmt.Sprintf("module (%d,%d) is %s, but it belongs to the %s and must be %s", X, Y, darkLight(g), what, darkLight(want))
+					break
+				}
+			}
+		}
+		r.Check(bad == "", "S-DMFRAME", key, pos, bad)
+	}
+}
+
+func darkLight(b bool) string {
+	if b {
+		return "dark"
+	}
+	return "light"
+}
+
+// S-DMDEINT: the decoder's de-interleaving against ISO 16022 (incl. the 144x144 symbol)
+func checkDMDeinterleave(c *Ctx, r *Report) {
+	r.Rule("S-DMDEINT", "DataBlocks_getDataBlocks, folded for each of the 30 symbol sizes on a stream of tagged codewords (codeword p of the symbol carries tag p), hands block b exactly the codewords ISO 16022 assigns to it, in order: stream position p belongs to block p mod B throughout - the round-robin continues from the data into the check codewords, which only matters for 144x144, whose 1558 data codewords leave it at block 8 - and every block is given its own data length", 30)
+	fd, p := c.funcDeclOf("datamatrix/decoder", "DataBlocks_getDataBlocks")
+	nv, _ := c.lookupObj("datamatrix/decoder", "NewVersion").(*types.Func)
+	nfd := c.funcDecl[nv]
+	if fd == nil || nfd == nil {
+		r.AnchorLost("S-DMDEINT", "datamatrix/decoder.DataBlocks_getDataBlocks", "function or NewVersion not found")
+		return
+	}
+	init, ip := c.varInit("datamatrix/decoder", "versions")
+	if init == nil {
+		r.AnchorLost("S-DMDEINT", "datamatrix/decoder.versions", "table not found")
+		return
+	}
+	tv := c.eval(ip, init)
+	for _, ref := range refDM {
+		key := fmt.Sprintf("datamatrix/decoder.DataBlocks_getDataBlocks %dx%d", ref.rows, ref.cols)
+		r.Analysed(key)
+		pos := c.pos(fd.Pos())
+		var ver *Val
+		if tv.K == VList {
+			for _, e := range tv.L {
+				if e.K == VCall && e.Fn == nv && len(e.L) == 6 && e.L[1].isInt() && e.L[2].isInt() && int(e.L[1].I) == ref.rows && int(e.L[2].I) == ref.cols {
+					if res, err := c.rpfCall(nfd, c.declPkg[nfd], e.L, nil); err == nil && len(res) == 1 && res[0].K == VStruct {
+						ver = res[0]
+					}
+				}
+			}
+		}
+		if ver == nil {
+			r.Undecided("S-DMDEINT", key, pos, "no foldable versions entry for this size")
+			continue
+		}
+		B := ref.blocks
+		total := ref.data + ref.ec
+		dataLen := make([]int, B)
+		want := make([][]int64, B)
+		for b := 0; b < B; b++ {
+			dataLen[b] = ref.data / B
+			if b < ref.data%B {
+				dataLen[b]++
+			}
+		}
+		for q := 0; q < total; q++ {
+			want[q%B] = append(want[q%B], int64(q))
+		}
+		raw := &Val{K: VList}
+		for q := 0; q < total; q++ {
+			raw.L = append(raw.L, vint(int64(q)))
+		}
+		h := &rpf{unroll: 100000, maxSteps: 3000000}
+		h.callHook = errCtorHook
+		res, err := c.rpfCall(fd, p, []*Val{raw, ver}, h)
+		if err != nil {
+			r.Undecided("S-DMDEINT", key, pos, err.Error())
+			continue
+		}
+		if len(res) != 2 || res[1].K != VNil || res[0].K != VList || len(res[0].L) != B {
+			r.Fail("S-DMDEINT", key, pos, "violation", fmt.Sprintf("DataBlocks_getDataBlocks does not return the %d blocks of this size for a stream of %d codewords", B, total))
+			continue
+		}
+		bad := ""
+		for b := 0; b < B && bad == ""; b++ {
+			blk := res[0].L[b]
+			if blk.K != VStruct || blk.Fields["codewords"] == nil || blk.Fields["numDataCodewords"] == nil || !blk.Fields["numDataCodewords"].isInt() {
+				bad = "?block value not recognised"
+				break
+			}
+			if blk.Fields["numDataCodewords"].I != int64(dataLen[b]) {
+				bad = fmt.Sprintf("block %d is given %d data codewords, ISO 16022 gives it %d", b, blk.Fields["numDataCodewords"].I, dataLen[b])
+				break
+			}
+			got, ok := listInts(blk.Fields["codewords"])
+			if !ok {
+				bad = fmt.Sprintf("?block %d holds codewords that were never assigned from the stream", b)
+				break
+			}
+			if fmt.Sprint(got) != fmt.Sprint(want[b]) {
+				at := 0
+				for at < len(got) && at < len(want[b]) && got[at] == want[b][at] {
+					at++
+				}
+				g, w := "nothing", "nothing"
+				if at < len(got) {
+					g = fmt.Sprintf("stream codeword %d", got[at])
+				}
+				if at < len(want[b]) {
+					w = fmt.Sprintf("stream codeword %d", want[b][at])
+				}
+				bad = fmt.Sprintf("block %d receives %d codewords (ISO: %d) and codeword %d of the block is %s, ISO 16022 puts %s there", b, len(got), len(want[b]), at, g, w)
+			}
+		}
+		if strings.HasPrefix(bad, "?") {
+			r.Undecided("S-DMDEINT", key, pos, bad[1:])
+			continue
+		}
+		r.Check(bad == "", "S-DMDEINT", key, pos, bad)
 	}
 }
